@@ -126,7 +126,24 @@ func (c *Ctx) c04Doc(idx int, noise bool) (*artRun, bool) {
 // htmlTokensOutsidePlaceholders returns the tokens of text nodes of the
 // distilled HTML that are not inside an embed placeholder.
 func htmlTokensOutsidePlaceholders(n *html.Node) []string {
-	return textNodeTokens(n, isPlaceholder)
+	// everything a reader of the serialised HTML could see: text nodes,
+	// comment nodes and attribute values
+	var out []string
+	walk(n, func(x *html.Node) bool {
+		switch x.Type {
+		case html.ElementNode:
+			if isPlaceholder(x) {
+				return false
+			}
+			for _, a := range x.Attr {
+				out = append(out, rxTok.FindAllString(a.Val, -1)...)
+			}
+		case html.TextNode, html.CommentNode:
+			out = append(out, rxTok.FindAllString(x.Data, -1)...)
+		}
+		return true
+	})
+	return out
 }
 
 func init() {
